@@ -75,6 +75,41 @@ func TestGotransFixtures(t *testing.T) {
 		add("RuneSum", stDec+" "+cs(s), func() string { return cz(int64(gtfix.RuneSum(s))) })
 		add("RuneIdx", stDec+" "+cs(s), func() string { return cz(int64(gtfix.RuneIdx(s))) })
 	}
+	{
+		named := func(s string) gtfix.Named {
+			if s == "<nil>" {
+				return nil
+			}
+			return gtfix.Lit(s)
+		}
+		optS := func(s string) string {
+			if s == "<nil>" {
+				return "None"
+			}
+			return "(Some " + cs(s) + ")"
+		}
+		for _, a := range []string{"<nil>", "", "a'b"} {
+			for _, l := range [][]string{nil, {"x"}, {"x", "", "yz"}, {"x", "<nil>"}} {
+				a, l := a, l
+				w := &gtfix.Wrap{Name: "n" + a, A: named(a), N: len(l) - 1}
+				var elems []string
+				for _, e := range l {
+					w.L = append(w.L, named(e))
+					elems = append(elems, optS(e))
+				}
+				ls := "(@nil (option bstr))"
+				if len(elems) > 0 {
+					ls = "[" + strings.Join(elems, "; ") + "]"
+				}
+				astr := cs(a)
+				if a == "<nil>" {
+					astr = cs("junk")
+				}
+				args := cb(a == "<nil>") + " " + astr + " " + ls + " " + cs(w.Name) + " " + cz(int64(w.N))
+				add("ShowWrap", args, func() string { return cs(gtfix.ShowWrap(w)) })
+			}
+		}
+	}
 	for _, x := range ints {
 		x := x
 		add("Fall", cz(int64(x)), func() string { return cz(int64(gtfix.Fall(x))) })
